@@ -1,7 +1,7 @@
 (* C06 — whatever the library signs it also verifies.  For any signature scheme whose
    correctness law holds (an explicit premise, not an axiom). *)
 From Model Require Import Bytes Prim Tables Cert KAC Mapping Sig LS RI Crypto.
-From Proofs Require Import CryptoProofs SignRT.
+From Proofs Require Import CryptoProofs SignRT ElsChain.
 Open Scope Z_scope.
 
 Theorem C06_encrypted_leaseset_sign_verify :
@@ -47,3 +47,19 @@ Theorem C06_lease_set_verification_depends_on_bytes_only : forall l l',
   ls_sig l = ls_sig l' -> kc_signing_type (k_kc (ls_dest l)) = kc_signing_type (k_kc (ls_dest l')) ->
   ls_verify_queries l = ls_verify_queries l'.
 Proof. exact ls_verification_is_function_of_bytes. Qed.
+
+(* EncryptedLeaseSet, after the wire: the signed value serialises to bytes that parse back to
+   the very same value (ElsChain.els_accept), so what verified before the wire verifies after it *)
+Theorem C06_encrypted_leaseset_verifies_after_wire :
+  forall verify sign pub, (forall sk m, verify ALG_ED25519 (pub sk) m (sign sk m) = true) ->
+  forall l sk, el_offline l = None -> el_key l = pub sk -> length (pub sk) = 32%nat ->
+    (el_sigtype l = 7 \/ el_sigtype l = 11)%N ->
+    els_validate (els_signed sign l sk) = true -> els_fits (els_signed sign l sk) ->
+    exists l', read_encrypted_lease_set (els_bytes (els_signed sign l sk)) = Ok (l', []) /\
+               verdict verify (els_verify_queries l') = true.
+Proof.
+  intros verify sign pub OK l sk Ho Hk Hl Ht V F. exists (els_signed sign l sk). split.
+  - rewrite <- (app_nil_r (els_bytes _)). apply els_accept; assumption.
+  - exact (els_sign_verify verify sign pub OK l sk Ho Hk Hl Ht).
+Qed.
+Print Assumptions C06_encrypted_leaseset_verifies_after_wire.
